@@ -152,6 +152,9 @@ func representable(v *core.Validity) bool {
 	if !validSpec(v) {
 		return false
 	}
+	if v == nil {
+		return true
+	}
 	start := int64(1790000000) // around the time of the run
 	if v.From != "" {
 		start, _ = localMidnightUTC(v.From, 0)
